@@ -36,6 +36,14 @@ def TokSt.cls : TokSt → Cls
 def TokSt.closed : TokSt → Bool
   | .str _ c => c | .num _ _ _ c => c | .kw .. => true | .grp _ _ c _ => c
 
+/-- the `!` flag of a group token -/
+def TokSt.opp : TokSt → Bool
+  | .grp _ _ _ o => o | _ => false
+
+/-- the keyword list of a keyword token -/
+def TokSt.kws : TokSt → List Str
+  | .kw _ k => k.kws | _ => []
+
 def kwAdd (k : KwSt) (ch : Char) : KwSt × IsTok :=
   let cur := k.cur ++ [ch]
   let listable := match k.expected with | some e => e | none => List.range k.kws.length
@@ -138,10 +146,8 @@ def appendSwitch (s : LS) : Outcome LS :=
   | some t =>
     if !t.closed then .cerr .expectedToken
     else
-      let opp := match t with | .grp _ _ _ o => o | _ => false
-      let kws := match t with | .kw _ k => k.kws | _ => []
-      match setValueCheck t.cls kws s.str with
-      | .ok () => .ok { s with out := ⟨t.cls, s.str, opp⟩ :: s.out, start := s.idx, tok := none,
+      match setValueCheck t.cls t.kws s.str with
+      | .ok () => .ok { s with out := ⟨t.cls, s.str, t.opp⟩ :: s.out, start := s.idx, tok := none,
                                isOp := !s.isOp, black := [], str := [] }
       | .cerr k => .cerr k
       | .crash e => .crash e
@@ -200,12 +206,18 @@ def lexLoop (vars : List Str) (inp : Array Char) : Nat → LS → Outcome LS
 /-- every character is rescanned at most once per class of its token start; generous fuel -/
 def lexFuel (n : Nat) : Nat := (n + 1) * 12 + 10
 
-/-- `__convert_string` -/
-def lex (vars : List Str) (inp : Str) : Outcome (List Tok) := do
-  let s ← lexLoop vars inp.toArray (lexFuel inp.length) {}
-  let s ← match s.tok with
-    | some _ => appendSwitch s       -- `not closed → not_closed()` is the closed check inside
-    | none => .ok s
+/-- the token still open at the end of the text is finished (`not closed → not_closed()` is the closed check inside) -/
+def lexFinish (s : LS) : Outcome LS :=
+  match s.tok with
+  | some _ => appendSwitch s
+  | none => .ok s
+
+/-- a complete expression alternates values and operators and ends on a value -/
+def lexResult (s : LS) : Outcome (List Tok) :=
   if s.out.length % 2 == 0 then .cerr .expectedToken else .ok s.out.reverse
+
+/-- `__convert_string` -/
+def lex (vars : List Str) (inp : Str) : Outcome (List Tok) :=
+  lexLoop vars inp.toArray (lexFuel inp.length) {} >>= lexFinish >>= lexResult
 
 end Duckling
